@@ -569,6 +569,11 @@ class Body:
                 return mk_field(args[0], "0")
             if at in INT_TYPES and dt in INT_TYPES and at != dt:
                 return ("cast", args[0], at, dt)      # `u16::from(k)` is the lossless `k as u16`
+        if tp == "std::iter::IntoIterator::into_iter" and len(args) == 1:
+            at = self._op_type(t["args"][0]) or ""
+            for coll in ("std::collections::HashMap", "std::collections::BTreeMap", "std::collections::HashSet", "std::collections::BTreeSet"):
+                if at.startswith("&" + coll + "<"):
+                    return ("call", coll + "::iter", (args[0],))
         if path.endswith("Option::unwrap_or_default") and len(args) == 1:
             # numeric default: `.unwrap_or_default()` ≡ `.unwrap_or(0)` (also for the integer newtypes, whose wrapper is not rendered)
             dt = self._place_type(t.get("dest"))
@@ -672,6 +677,8 @@ def simplify_call(path, args, trait_path=None):
             return ("call", "stdcode::StdcodeSerializeExt::stdcode", (args[0][2][0],))
     if len(args) == 1 and (path.endswith("Vec::as_slice") or path.endswith("Vec::<T, A>::as_slice") or path.endswith("::as_slice")):
         return args[0]
+    if len(args) == 1 and path in ("core::slice::<impl [T]>::first", "std::slice::<impl [T]>::first"):
+        return ("call", path[:-len("first")] + "get", (args[0], ("const", "usize", 0)))      # `.first()` is `.get(0)`
     if tp == "tmelcrypt::Hashable::hash" and len(args) == 1:
         return ("call", "tmelcrypt::hash_single", (args[0],))
     if tp in TRANSPARENT_CALLS and len(args) == 1:
@@ -908,6 +915,8 @@ class Program:
         from . import inline as _inl
         self.known = _inl.load_known() if os.environ.get("MELSTF_NO_INLINE") != "1" else None
         self.inlined = _inl.inline_unknown(crates, self.known)
+        if os.environ.get("MELSTF_NO_INLINE") != "1":
+            _inl.eta_expand_tail_results(crates)
         self.known_consts = set(self.known["consts"]) if self.known else None
         fnrefs = set()
         for j in crates:
